@@ -1,4 +1,6 @@
 
+val implb : bool -> bool -> bool
+
 val negb : bool -> bool
 
 type nat =
@@ -137,6 +139,10 @@ module Z :
 
   val eqb : z -> z -> bool
 
+  val max : z -> z -> z
+
+  val min : z -> z -> z
+
   val to_nat : z -> nat
 
   val of_nat : nat -> z
@@ -146,6 +152,8 @@ module Z :
   val pos_div_eucl : positive -> z -> z * z
 
   val div_eucl : z -> z -> z * z
+
+  val div : z -> z -> z
 
   val modulo : z -> z -> z
 
@@ -669,3 +677,85 @@ val bf_cfg_after : z -> env -> nat -> bfcfg -> bfcfg option
 val env_fault_free : env -> bool
 
 val cert_ok : z -> env -> cmd list -> nat -> nat -> bool
+
+val u64 : z
+
+val wrap64 : z -> z
+
+val to_signed : z -> z
+
+val sIZE_LIMIT : z
+
+type rtape = { t_buf : (z -> z); t_size : z; t_off : z }
+
+val rtape0 : rtape
+
+type policy = z -> z -> z -> z * z
+
+val rust_policy : policy
+
+type 'a tres =
+| TOk of 'a
+| RawOob of z
+| TooLarge
+| AllocFail
+
+val t_mov : rtape -> z -> rtape
+
+val t_ptr : rtape -> z -> z
+
+val t_read : rtape -> z -> z
+
+val t_check : rtape -> z -> bool
+
+val needed_below : z -> z
+
+val needed_above : z -> z -> z
+
+val t_make_accessible : policy -> bool -> rtape -> z -> z -> rtape tres
+
+val t_raw_write : rtape -> z -> z -> rtape tres
+
+val t_write : policy -> bool -> rtape -> z -> z -> rtape tres
+
+type top =
+| TMov of z
+| TRead of z
+| TWrite of z * z
+| TAcc of z * z
+| TCheck of z
+
+type tobs =
+| ORead of z
+| OCheck of bool
+| ONone
+
+val next_alloc : bool list -> bool * bool list
+
+val grows : rtape -> z -> z -> bool
+
+val t_run :
+  policy -> top list -> bool list -> rtape -> (tobs list * rtape) tres
+
+type tspec = { s_cells : (z -> z); s_pos : z; s_acc : (z * z) list }
+
+val spec0 : tspec
+
+val in_acc : (z * z) list -> z -> bool
+
+type sobs =
+| SRead of z
+| SCheck of bool
+| SNone
+
+val s_run : top list -> tspec -> sobs list * tspec
+
+val obs_match : tobs -> sobs -> bool
+
+val all_match : tobs list -> sobs list -> bool
+
+val mAG : z
+
+val small : z -> bool
+
+val ops_small : top list -> z -> bool
